@@ -1,13 +1,15 @@
 import TaskModel.Load.Reader
 /-!
 Load.RootRef — what property C08 demands of `:`-prefixed references: a dependency or
-`task:` target written `:x` in an included file denotes the task `x` of the ROOT
-Taskfile, whatever the include path; every other reference denotes a task of the file it
-is written in, under that file's full namespace path.
+`task:` target written `:x` in any file of the tree (the root file included) denotes the
+task `x` of the ROOT Taskfile, whatever the include path; every other reference denotes a
+task of the file it is written in, under that file's full namespace path.
 
-`specRefs` computes the demanded targets with the ordinary merge: `:x` is protected by a
-sentinel before loading (so it is carried through every level like any other name) and
-everything up to the sentinel is dropped afterwards.
+`specRefs` computes the demanded targets independently of the rule the loader applies to
+`:`-references: `:x` is replaced by a sentinel-marked name before loading (so it is
+carried through every level like any local name) and everything up to the sentinel is
+dropped afterwards.  It is the monitor of the correspondence op `load.refs`; since F32
+(`taskRefWithNamespace` + `ResolveRootRefs`) the loader's own answer coincides with it.
 -/
 namespace TaskModel.Load
 
@@ -20,9 +22,9 @@ def protectName : Name → Name
 def protectTask (t : Task) : Task :=
   { t with deps := t.deps.map protectName, cmds := t.cmds.map (fun c => { c with task := protectName c.task }) }
 
-/-- only included files are concerned: the root file's own references are left as written -/
-def protectFiles (fm : FileMap) (root : Nat) : FileMap :=
-  fm.map (fun f => if f.1 = root then f else (f.1, { f.2 with tasks := f.2.tasks.map protectTask }))
+/-- every file is concerned, the root file too -/
+def protectFiles (fm : FileMap) : FileMap :=
+  fm.map (fun f => (f.1, { f.2 with tasks := f.2.tasks.map protectTask }))
 
 /-- the part after the last sentinel (the whole name if there is none) -/
 def afterSentinel : Name → Name
@@ -34,7 +36,7 @@ def Task.refs (t : Task) : List Name := t.deps ++ (t.cmds.map (·.task)).filter 
 
 /-- demanded reference targets of every merged task: (key, defining file, targets) -/
 def specRefs (fm : FileMap) (root : Nat) : Except Err (List (Name × Nat × List Name)) :=
-  match load (protectFiles fm root) root with
+  match load (protectFiles fm) root with
   | .ok tf => .ok (tf.tasks.map (fun t => (t.name, t.loc, t.refs.map afterSentinel)))
   | .error e => .error e
 
